@@ -10,6 +10,18 @@ var loadedP *Program
 var loadedV *Verifier
 
 // loadAll loads the tree under test once per process (a run over several properties shares the SSA and the contracts).
+// shapeNotes: what applyShapeAliases rewrote (reported in the evidence of every check)
+var shapeNotes []string
+
+// shapeRenames: per function under contract, parameters / locals renamed since the shape was recorded (old -> new)
+var shapeRenames = map[string]map[string]string{}
+
+// shapeNewFuncs: functions that did not exist when the shape was recorded
+var shapeNewFuncs = map[string]bool{}
+
+// shapeFnAlias: functions under contract that were renamed (old name -> new name)
+var shapeFnAlias = map[string]string{}
+
 func loadAll() (*Program, *Verifier) {
 	if loadedP != nil {
 		return loadedP, loadedV
@@ -24,6 +36,7 @@ func loadAll() (*Program, *Verifier) {
 		fmt.Fprintln(os.Stderr, "govc: engine error:", err)
 		os.Exit(2)
 	}
+	shapeNotes = applyShapeAliases(P, sp)
 	if err := sp.resolveExprs(); err != nil {
 		fmt.Fprintln(os.Stderr, "govc: engine error:", err)
 		os.Exit(2)
@@ -104,6 +117,9 @@ func main() {
 		}
 	case "check":
 		os.Exit(runCheck(os.Args[2:]))
+	case "shape":
+		// govc shape: record the names the contracts rely on (functions, parameters, locals) in baseline/_shape.json
+		os.Exit(runShape(os.Args[2:]))
 	case "replay":
 		// govc replay <path>: show what a VIOLATION's replay file records (obligation, meaning, solver answer and model)
 		// and, where a hand-written replay test exists for the obligation (known findings / repaired defects), run it
